@@ -21,7 +21,11 @@ Definition own (rid : N) (h : heap) : view := fun n => h (PerRender rid, n).
 Inductive pstep :=
 | PPriv (cell : N) (f : view -> heap -> N)
 | PFill (c : loc)
-| PData (cell : N) (f : view -> heap -> N).
+| PData (cell : N) (f : view -> heap -> N)
+| PCacheWrite (c : loc) (f : view -> heap -> N).
+     (* PCacheWrite: a plain store into a cache cell - what a macro of a cached imported module does
+        when its {% autoescape %} block sets the module context's eval context; excluded by the
+        footprint obligation, present to state the refutation *)
 
 (* read-only regions *)
 Definition ro (l : loc) : bool :=
@@ -40,6 +44,7 @@ Section Exec.
     | PPriv n f => upd h (PerRender rid, n) (f (own rid h) h)
     | PFill c => fill h c
     | PData n f => upd h (Data, n) (f (own rid h) h)
+    | PCacheWrite c f => upd h c (f (own rid h) h)
     end.
 
   Definition run_sched (s : list (N * pstep)) (h : heap) : heap := fold_left exec s h.
@@ -50,7 +55,7 @@ End Exec.
 
 (* the footprint obligation on a schedule: no step writes the caller's data, fills only touch cache cells *)
 Definition step_footprint_ok (st : pstep) : bool :=
-  match st with PPriv _ _ => true | PFill c => is_cache c | PData _ _ => false end.
+  match st with PPriv _ _ => true | PFill c => is_cache c | PData _ _ | PCacheWrite _ _ => false end.
 Definition footprint_ok (s : list (N * pstep)) : bool := forallb (fun ts => step_footprint_ok (snd ts)) s.
 
 (* ---------------------------------------------------------------- the regenerated table (T3) *)
